@@ -3,6 +3,7 @@ import TypstyleModel.Props.C11
 import TypstyleModel.Model.Printer.Knot
 import TypstyleModel.Proofs.Tokens
 import TypstyleModel.Proofs.EndToEnd
+import TypstyleModel.Proofs.Prepare
 /-! C01 — formatting preserves the syntax tree (partial: printer side; the re-parse is an assumption). -/
 namespace Typstyle
 open Pretty
@@ -87,6 +88,15 @@ theorem C01_output_text_keeps_source_text (root : Node) (d : Twin.Doc)
     (hplain : (prepare root).noCommentNoVerbatim = true) (hb : (prepare root).blankSpaces = true) (u w : Nat) :
     Pretty.keepOf (strip (pretty w (d.fam u))) = Pretty.keepOf (prepare root).intoText :=
   output_text_keeps_source_text root d ht hc hplain hb u w
+
+/-- T1.4b: the same against the text of the raw syntax tree (the attribute and numbering passes do
+not touch the text: `prepare_intoText`); for a lossless parser that text is the source text. -/
+theorem C01_output_text_keeps_tree_text (root : Node) (d : Twin.Doc)
+    (ht : tokensCertified root d = true) (hc : commentsCertified root d = true)
+    (hplain : (prepare root).noCommentNoVerbatim = true) (hb : (prepare root).blankSpaces = true) (u w : Nat) :
+    Pretty.keepOf (strip (pretty w (d.fam u))) = Pretty.keepOf root.intoText := by
+  rw [← prepare_intoText root]
+  exact output_text_keeps_source_text root d ht hc hplain hb u w
 
 /-- T1.5: the post-pass keeps every non-blank character of the whole text, in order. -/
 theorem C01_strip_keeps_text (s : List Char) :
